@@ -49,6 +49,8 @@ def scenarios(tier, pid):
        "a12,a14;a14,a12;D10", "--watch", "10", "--preempt", 1)
     sc("raw_concurrent_add_then_delivery", ("C10", "C12"), "--raw", "--consumer", "p,p", "--others",
        "a12,D12;a12", "--watch", "10", "--preempt", 1)
+    sc("raw_three_deliveries_vs_pending", ("C10",), "--raw", "--consumer", "p,p,p", "--others",
+       "D10,D10,D10", "--preempt", 2)
     sc("burst_same_signal", ("C10",), "--consumer", "p,p,p", "--others", "D10,D10,D10;D10",
        "--preempt", 2 if T else 1)
     sc("raw_records_two_producers", ("C10", "C09") if T else ("C10",), "--raw", "--consumer", "p,p,p",
@@ -67,6 +69,12 @@ def scenarios(tier, pid):
     sc("close_then_calls", ("C11",), "--consumer", "w,p,f2", "--others", "c", "--preempt", 1)
     sc("close_vs_poll_and_delivery", ("C11", "C09"), "--consumer", "b3", "--others", "c;D10",
        "--preempt", 2)
+    # generated programs (lib/genprog.py): the monitor is program-independent
+    import genprog
+    for seed in range(100 if T else 6):
+        name, gargs = genprog.iterator_program(seed)
+        if pid in ("C09", "C10", "C11", "C12", "C03"):
+            S.append((name, gargs))
     return S
 
 
